@@ -79,3 +79,30 @@ def rename_locals(src, suffix="_r"):
     tree = _LocalRenamer(suffix).visit(tree)
     ast.fix_missing_locations(tree)
     return ast.unparse(tree) + "\n"
+
+
+def insert_noops(src):
+    """insert a `pass` at the start of every function body (after the docstring), of every loop body and of every if/else body,
+    and give every function without one a docstring"""
+    with warnings.catch_warnings():
+        warnings.simplefilter("ignore")
+        tree = ast.parse(src)
+    for n in ast.walk(tree):
+        if isinstance(n, (ast.FunctionDef, ast.AsyncFunctionDef)):
+            body = n.body
+            has_doc = body and isinstance(body[0], ast.Expr) and isinstance(body[0].value, ast.Constant) and isinstance(body[0].value.value, str)
+            if not has_doc:
+                body.insert(0, ast.Expr(ast.Constant("doc")))
+            body.insert(1, ast.Pass())
+        elif isinstance(n, (ast.For, ast.While, ast.With)):
+            n.body.insert(0, ast.Pass())
+        elif isinstance(n, ast.If):
+            n.body.insert(0, ast.Pass())
+            if n.orelse and not (len(n.orelse) == 1 and isinstance(n.orelse[0], ast.If)):
+                n.orelse.insert(0, ast.Pass())
+        elif isinstance(n, ast.Try):
+            n.body.insert(0, ast.Pass())
+            for h in n.handlers:
+                h.body.insert(0, ast.Pass())
+    ast.fix_missing_locations(tree)
+    return ast.unparse(tree) + "\n"
